@@ -218,7 +218,7 @@ package lfs
 //@   props C04 C09
 //@   requires @inv cfg != nil && isoid(oid) && oid != fs.EmptyObjectSHA256
 //@   requires @inv forall_v(q, isrefobj(q, oid), isrefobj(q, oid) && fexists(q) ==> hexsha(fdata(q)) == oid)
-//@   modifies fresh, key F:github.com/git-lfs/git-lfs/v3/fs.Filesystem.tmpdir, ghost fpath, ghost rrest, ghost wbuf, ghost fexists[q | q == objpath(oid) || (isauxdir(path_dir(q)) && !old(fexists(q)))], ghost fdata[q | q == objpath(oid) || (isauxdir(path_dir(q)) && !old(fexists(q)))]
+//@   modifies fresh, key F:github.com/git-lfs/git-lfs/v3/fs.Filesystem.tmpdir, ghost lastexists, ghost fpath, ghost rrest, ghost wbuf, ghost fexists[q | q == objpath(oid) || (isauxdir(path_dir(q)) && !old(fexists(q)))], ghost fdata[q | q == objpath(oid) || (isauxdir(path_dir(q)) && !old(fexists(q)))]
 //@   loop 1 invariant forall_v(q, isrefobj(q, oid), isrefobj(q, oid) && fexists(q) ==> hexsha(fdata(q)) == oid)
 //@   loop 1 invariant forall_v(q, fexists(q), old(fexists(q)) ==> fexists(q))
 //@   loop 1 invariant fexists(objpath(oid)) ==> hexsha(fdata(objpath(oid))) == oid || (old(fexists(objpath(oid))) && fdata(objpath(oid)) == old(fdata(objpath(oid))))
@@ -231,8 +231,9 @@ package lfs
 //@ func (*github.com/git-lfs/git-lfs/v3/config.Configuration).LFSObjectExists
 //@   assumed
 //@   props C04 C09
-//@   modifies fresh
+//@   modifies fresh, ghost lastexists
 //@   ensures result && size != 0 ==> fexists(objpath(oid))
+//@   ensures result == lastexists()
 //@ func github.com/git-lfs/git-lfs/v3/tools.FileExistsOfSize
 //@   props C04 C09
 //@   modifies fresh
